@@ -152,6 +152,12 @@ type Mutant struct {
 	New    string `json:"new"`
 	Expect string `json:"expect"` // prefix of an obligation key that must fail
 	Why    string `json:"why,omitempty"`
+	// further replacements of the same mutant (second site, added import); File defaults to the mutant's file
+	More []struct {
+		File string `json:"file"`
+		Old  string `json:"old"`
+		New  string `json:"new"`
+	} `json:"more,omitempty"`
 }
 
 type MutantSummary struct {
@@ -160,6 +166,10 @@ type MutantSummary struct {
 	Skipped  []string `json:"skipped_patch_does_not_apply"`
 	Survived []string `json:"survived"`
 	Detail   []string `json:"killed_by"`
+	// behaviour-preserving variants (expect NONE): the check must stay silent on them
+	Benign       int      `json:"benign_variants"`
+	BenignSilent int      `json:"benign_variants_silent"`
+	FalseAlarms  []string `json:"benign_variants_alarmed"`
 }
 
 func loadMutants(prop string) []Mutant {
@@ -179,15 +189,35 @@ func mutantOverlay(prop, name string) (map[string][]byte, error) {
 		if m.Name != name {
 			continue
 		}
-		path := filepath.Join(repoDir, m.File)
-		b, err := os.ReadFile(path)
-		if err != nil {
-			return nil, fmt.Errorf("SKIP: %v", err)
+		ov := map[string][]byte{}
+		apply := func(file, old, new string) error {
+			path := filepath.Join(repoDir, file)
+			b, ok := ov[path]
+			if !ok {
+				var err error
+				if b, err = os.ReadFile(path); err != nil {
+					return fmt.Errorf("SKIP: %v", err)
+				}
+			}
+			if strings.Count(string(b), old) != 1 {
+				return fmt.Errorf("SKIP: pattern occurs %d times in %s", strings.Count(string(b), old), file)
+			}
+			ov[path] = []byte(strings.Replace(string(b), old, new, 1))
+			return nil
 		}
-		if strings.Count(string(b), m.Old) != 1 {
-			return nil, fmt.Errorf("SKIP: pattern occurs %d times in %s", strings.Count(string(b), m.Old), m.File)
+		if err := apply(m.File, m.Old, m.New); err != nil {
+			return nil, err
 		}
-		return map[string][]byte{path: []byte(strings.Replace(string(b), m.Old, m.New, 1))}, nil
+		for _, e := range m.More {
+			f := e.File
+			if f == "" {
+				f = m.File
+			}
+			if err := apply(f, e.Old, e.New); err != nil {
+				return nil, err
+			}
+		}
+		return ov, nil
 	}
 	return nil, fmt.Errorf("SKIP: no such mutant %s", name)
 }
@@ -215,6 +245,26 @@ func runMutants(prop string) *MutantSummary {
 			mu.Lock()
 			defer mu.Unlock()
 			hit := ""
+			if m.Expect == "NONE" {
+				// behaviour-preserving variant: the check must stay silent
+				sum.Benign++
+				bad := []string{}
+				for _, k := range keys {
+					if strings.HasPrefix(k, "ERROR:SKIP") {
+						sum.Benign--
+						sum.Skipped = append(sum.Skipped, m.Name)
+						return
+					}
+					bad = append(bad, k)
+				}
+				if len(bad) == 0 {
+					sum.BenignSilent++
+					sum.Detail = append(sum.Detail, m.Name+" -> silent (benign variant)")
+				} else {
+					sum.FalseAlarms = append(sum.FalseAlarms, fmt.Sprintf("%s (benign variant reported %v)", m.Name, bad))
+				}
+				return
+			}
 			for _, k := range keys {
 				if strings.HasPrefix(k, "ERROR:SKIP") {
 					sum.Skipped = append(sum.Skipped, m.Name)
@@ -240,7 +290,11 @@ func runMutants(prop string) *MutantSummary {
 	sort.Strings(sum.Skipped)
 	sort.Strings(sum.Survived)
 	sort.Strings(sum.Detail)
-	fmt.Printf("  mutants: total=%d killed=%d skipped=%d survived=%d\n", sum.Total, sum.Killed, len(sum.Skipped), len(sum.Survived))
+	sort.Strings(sum.FalseAlarms)
+	fmt.Printf("  mutants: total=%d killed=%d skipped=%d survived=%d benign=%d benign_silent=%d\n", sum.Total-sum.Benign, sum.Killed, len(sum.Skipped), len(sum.Survived), sum.Benign, sum.BenignSilent)
+	for _, s := range sum.FalseAlarms {
+		fmt.Printf("  SELFTEST-WARN benign variant alarmed: %s\n", s)
+	}
 	for _, s := range sum.Survived {
 		fmt.Printf("  SELFTEST-WARN mutant survived: %s\n", s)
 	}
